@@ -13,6 +13,8 @@ void run_h1(const std::string& op, const std::string& fam, const MeshIn& in, Cur
   if(fam == "L3") { Ops<ShapeT, FamL3>::run(op, cx, c, o); return; }
   if(fam == "D0") { Ops<ShapeT, FamD0>::run(op, cx, c, o); return; }
   if(fam == "B2") { Ops<ShapeT, FamB2>::run(op, cx, c, o); return; }
+  if(fam == "HE") { Ops<ShapeT, FamHE>::run(op, cx, c, o); return; }
+  if(fam == "BF") { Ops<ShapeT, FamBF>::run(op, cx, c, o); return; }
   o << "UNSUPPORTED";
 }
 }
